@@ -18,6 +18,7 @@ Judge(t) ==
       cl == [wellformed |-> r.ok,
              contents |-> r.ok => SameFiles(r.files, t.files),
              blocks |-> r.ok => r.nblocks = SumBlocks(t.files, 1),
+             leaders |-> r.ok => r.noleader = 0,
              roundtrip |-> t.listed.ok /\ SameFiles(t.listed.files, t.files)]
       d == IF t.listed.ok THEN FirstDiff(t.listed.files, t.files) ELSE 1
       bad == IF d \in DOMAIN t.files THEN d ELSE IF Len(t.files) > 0 THEN Len(t.files) ELSE 0
